@@ -55,12 +55,18 @@ package webtransport
 //@   ensures [C15.rem]       c.readRemaining >= 0
 
 //@ func (*Conn).NextReader()
-//@   props C15, C09
+//@   props C15, C09, C14
 //@   requires c != nil && c.br != nil && c.session != nil && c.readRemaining >= 0 && c.readErrCount < 999
 //@   requires c.reader == nil || typeis(c.reader, *messageReader)
+// the read-side state is owned by the read path: the stored error is written where a read fails and nowhere else (no
+// setter, deadline call or writer re-arms a failed connection), the limit only by SetReadLimit
+//@   census [C15.sticky.census,C13.sticky.census] (*Conn).readErr, (*Conn).readErrCount written only by (*Conn).NextReader, (*messageReader).Read
+//@   census [C15.limit.census,C10.limit.census] (*Conn).readLimit written only by (*Conn).SetReadLimit, NewConn
+//@   census [C15.count.census,C10.count.census,C14.count.census] (*Conn).readLength, (*Conn).readRemaining written only by (*Conn).NextReader, (*Conn).advanceFrame, (*Conn).setReadRemaining, (*messageReader).Read
 //@   modifies c.reader, c.messageReader, c.readLength, c.readErr, c.readErrCount, c.readRemaining, c.br.$pos, c.br.$buffered, Mem(c.br.$peek)
 //@   loop 1 invariant c.readRemaining >= 0 && c.readLength >= 0
 //@   loop 1 invariant old(c.readErr) != nil ==> c.readErr == old(c.readErr)
+//@   loop 1 invariant c.readLength == 0
 //@   ensures [C15.sticky]  old(c.readErr) != nil ==> err == old(c.readErr) && c.readErr == old(c.readErr) && r == nil
 //@   ensures [C15.stored]  err != nil ==> c.readErr == err
 //@   ensures [C15.kinds]   err == nil ==> (messageType == TextMessage || messageType == BinaryMessage) && r != nil
@@ -68,6 +74,9 @@ package webtransport
 //@   ensures [C15.errcount] (err == nil ==> c.readErrCount == old(c.readErrCount)) && (err != nil ==> c.readErrCount == old(c.readErrCount) + 1)
 //@   ensures [C15.limit2,C10.wt2]  err == nil ==> (c.readLimit <= 0 || c.readLength <= c.readLimit)
 //@   ensures [C15.rem2]    c.readRemaining >= 0
+// the length that is held against the limit is the length of the message being returned: the count starts afresh with
+// every message, whatever was read before on the stream (well-formed frames below the limit are never refused)
+//@   ensures [C14.permessage,C15.permessage,C10.permessage] err == nil ==> c.readLength == c.readRemaining
 //@   ensures [C15.rdr]     c.reader == nil || typeis(c.reader, *messageReader)
 
 //@ func (*messageReader).Read(b)
